@@ -460,3 +460,64 @@ Example slots_injective_prefix_refuted :
   let f := fk_update [] [] (fk_new_prefix [7; 8; 9]%Z) [7; 8; 9; 20]%Z in
   fk_get 8%Z f = Some (1, 1) /\ fk_get 20%Z f = Some (1, 3).
 Proof. vm_compute. split; reflexivity. Qed.
+
+(** ---- nested keyed fields: the FieldKeys below a removed item are forgotten (repair of
+    F-C16-l), so the item that takes over the recycled segment starts with fresh keys ---- *)
+Lemma starts_with_refl p : starts_with p p = true.
+Proof. induction p as [|x p IH]; cbn [starts_with]; [reflexivity|]. rewrite Nat.eqb_refl. exact IH. Qed.
+
+Lemma km_find_remove_below_hit p q m :
+  starts_with p q = true -> km_find q (km_remove_below p m) = None.
+Proof.
+  intros H. unfold km_remove_below. induction m as [|[q' f] m IH]; cbn [filter km_find fst]; [reflexivity|].
+  destruct (starts_with p q') eqn:E; cbn [negb km_find].
+  - exact IH.
+  - destruct (list_eq_dec Nat.eq_dec q q') as [->|Hne]; [congruence | exact IH].
+Qed.
+
+Lemma km_find_remove_below_none p q m :
+  km_find q m = None -> km_find q (km_remove_below p m) = None.
+Proof.
+  unfold km_remove_below. induction m as [|[q' f] m IH]; cbn [filter km_find fst]; [reflexivity|].
+  destruct (list_eq_dec Nat.eq_dec q q') as [->|Hne]; [discriminate|]. intros H.
+  destruct (starts_with p q'); cbn [negb km_find]; [apply IH, H|].
+  destruct (list_eq_dec Nat.eq_dec q q') as [->|_]; [congruence | apply IH, H].
+Qed.
+
+Lemma km_find_fold_remove_below_none p segs : forall m q,
+  km_find q m = None ->
+  km_find q (fold_left (fun m seg => km_remove_below (p ++ [seg]) m) segs m) = None.
+Proof.
+  induction segs as [|s segs IH]; intros m q H; cbn [fold_left]; [exact H|].
+  apply IH, km_find_remove_below_none, H.
+Qed.
+
+Lemma km_find_fold_remove_below_hit p segs : forall m q seg,
+  In seg segs -> starts_with (p ++ [seg]) q = true ->
+  km_find q (fold_left (fun m seg => km_remove_below (p ++ [seg]) m) segs m) = None.
+Proof.
+  induction segs as [|s segs IH]; intros m q seg Hin Hs; cbn [fold_left]; [destruct Hin|].
+  destruct Hin as [->|Hin].
+  - apply km_find_fold_remove_below_none, km_find_remove_below_hit, Hs.
+  - eapply IH; eassumption.
+Qed.
+
+(** after update_keys() of the keyed field at [p]: whatever keyed field lies at or below the
+    item path [p ++ [seg]] of a key that was removed has no FieldKeys any more - the next
+    access creates them afresh from the collection found there *)
+Theorem update_keys_forgets_below_removed c1 c2 p latest m f seg q :
+  km_find p m = Some f -> In seg (fk_removed f latest) -> starts_with (p ++ [seg]) q = true ->
+  km_find q (km_update c1 c2 p latest m) = None.
+Proof.
+  intros Hf Hin Hs. unfold km_update, km_entry. rewrite Hf.
+  eapply km_find_fold_remove_below_hit; eassumption.
+Qed.
+
+(** the hypotheses are satisfiable: keys [7; 8] at path [4], a nested keyed field of item 7 at
+    [4; 0; 3]; removing key 7 forgets the nested keys, those of item 8 stay *)
+Example update_keys_forgets_nontrivial :
+  let m := [([4], fk_new [7; 8]%Z); ([4; 0; 3], fk_new [1; 2]%Z); ([4; 1; 3], fk_new [3]%Z)] in
+  let m' := km_update [] [] [4] [8]%Z m in
+  fk_removed (fk_new [7; 8]%Z) [8]%Z = [0] /\ km_find [4; 0; 3] m' = None /\
+  km_find [4; 1; 3] m' = Some (fk_new [3]%Z).
+Proof. vm_compute. repeat split; reflexivity. Qed.
